@@ -57,7 +57,8 @@ def accept_gemini(draw):
 def accept_titan(draw):
     u = draw(urlgen.gemini_url(scheme="titan", titan=True))
     content = draw(st.binary(max_size=40))
-    extra = draw(st.binary(max_size=10))
+    draw(st.binary(max_size=10))  # (kept so that recorded seeds draw the same later values)
+    extra = b""  # exactly the declared number of bytes: what surplus bytes do to a request is C07's subject, not C08's
     size = len(content)
     params = []
     mime = None
